@@ -322,6 +322,42 @@ struct Config
         os << ' ' << (p - base) << ".." << (p - base) + static_cast<std::ptrdiff_t>(n * sizeof(typename Pi::type)) << '[' << join(ids) << ']';
         got.push_back(ids);
     }
+    // where a reference says its element and every one of its fields live: (address, number of objects) per field
+    using Sig = std::vector<std::pair<const void*, std::size_t>>;
+    template <std::size_t I, class Ref>
+    static void sig_field(const Ref& r, Sig& sig)
+    {
+        using Pi = std::tuple_element_t<I, Params>;
+        auto&& f = cntgs::get<I>(r);
+        if constexpr (Pi::kind == PLAIN)
+            sig.emplace_back(static_cast<const void*>(&f), 1);
+        else
+            sig.emplace_back(static_cast<const void*>(f.data()), f.size());
+    }
+    template <class Ref, std::size_t... I>
+    static Sig sig_of(const Ref& r, std::index_sequence<I...>)
+    {
+        Sig sig;
+        sig.emplace_back(static_cast<const void*>(r.data_begin()), r.size_in_bytes());
+        sig.emplace_back(static_cast<const void*>(r.data_end()), 0);
+        (sig_field<I>(r, sig), ...);
+        return sig;
+    }
+    template <class Ref>
+    static Sig sig_of(const Ref& r)
+    {
+        return sig_of(r, std::make_index_sequence<N>{});
+    }
+    void same_view(const Sig& want, const Sig& got, const std::string& path, const std::string& who)
+    {
+        if (want != got)
+        {
+            violation("C01:access-path-shows-another-element path=" + path + " " + who);
+            violation("C04:access-path-reports-other-field-addresses-or-sizes path=" + path + " " + who);
+            violation("C11:access-path-is-not-a-faithful-proxy path=" + path + " " + who);
+        }
+    }
+
     template <class Ref, std::size_t... I>
     void dump_ref(std::ostringstream& os, const Ref& r, const std::byte* base, std::size_t block_bytes, std::uintptr_t& prev_end, Vals& got,
                   const std::string& who, std::index_sequence<I...>)
@@ -400,10 +436,52 @@ struct Config
             std::uintptr_t prev_end = estart;
             Vals got;
             dump_ref(os, r, base, block_bytes, prev_end, got, who, std::make_index_sequence<N>{});
+            {   // every way of reaching element e - const and non-const - must denote the same objects with the same sizes
+                const Vector& cv = v;
+                const Sig want = sig_of(r);
+                same_view(want, sig_of(cv[e]), "const operator[]", who);
+                same_view(want, sig_of(*it), "*iterator", who);
+                const auto cit_obj = it;  // a const-qualified iterator object
+                same_view(want, sig_of(*cit_obj), "*(const iterator object)", who);
+                typename Vector::const_iterator cit = cv.begin() + static_cast<std::ptrdiff_t>(e);
+                same_view(want, sig_of(*cit), "*const_iterator", who);
+                const auto ccit_obj = cit;
+                same_view(want, sig_of(*ccit_obj), "*(const const_iterator object)", who);
+                same_view(want, sig_of(*(it.operator->().operator->())), "iterator->", who);
+                same_view(want, sig_of(*(cit.operator->().operator->())), "const_iterator->", who);
+                same_view(want, sig_of(v.begin()[static_cast<std::ptrdiff_t>(e)]), "begin()[e]", who);
+                same_view(want, sig_of(cv.cbegin()[static_cast<std::ptrdiff_t>(e)]), "cbegin()[e]", who);
+                if (e == 0)
+                {
+                    same_view(want, sig_of(v.front()), "front()", who);
+                    same_view(want, sig_of(cv.front()), "const front()", who);
+                }
+                if (e + 1 == v.size())
+                {
+                    same_view(want, sig_of(v.back()), "back()", who);
+                    same_view(want, sig_of(cv.back()), "const back()", who);
+                }
+            }
             if (prev_end != reinterpret_cast<std::uintptr_t>(r.data_end())) violation("C04:data_end-is-not-last-field-end " + who);
             if (prev_end > reinterpret_cast<std::uintptr_t>(v.data_end())) violation("C04:element-beyond-data_end " + who);
             prev_elem_end = prev_end;
             got_all.push_back(got);
+        }
+        {
+            std::size_t idx = 0;
+            for (auto&& cr : std::as_const(v))
+            {
+                if (idx < v.size()) same_view(sig_of(v[idx]), sig_of(cr), "range-for over const vector", "v" + std::to_string(k) + "[" + std::to_string(idx) + "]");
+                ++idx;
+            }
+            if (idx != v.size()) violation("C01:const-iteration-visits-wrong-number-of-elements v" + std::to_string(k));
+            idx = 0;
+            for (auto&& mr : v)
+            {
+                if (idx < v.size()) same_view(sig_of(v[idx]), sig_of(mr), "range-for", "v" + std::to_string(k) + "[" + std::to_string(idx) + "]");
+                ++idx;
+            }
+            if (idx != v.size()) violation("C01:iteration-visits-wrong-number-of-elements v" + std::to_string(k));
         }
         if (check_oracle && slot.oracle_valid)
         {
@@ -1116,6 +1194,7 @@ struct Config
             out << "bad-op " << op << "\n";
             return;
         }
+        L.check_all_guards();
         if (op == "cmpv" || op == "cmpe" || op == "transe" || op == "transv") return;
         out << "ledger +" << (L.n_alloc - allocs_before) << " -" << (L.n_dealloc - deallocs_before) << "\n";
         life_line();
